@@ -227,7 +227,7 @@ fn main() {
                 let _ = std::fs::remove_dir(&dir);
                 if cfg.closure && rep.closure.is_empty() {
                     if rep.exhaustive {
-                        symx::explore::run_closure(&mut rep, &cfg.solver);
+                        symx::explore::run_closure(&mut rep, &cfg.solver, Some(&|| (h.sym)(&p)));
                     } else {
                         rep.closure = "skipped: the exploration did not close".into();
                         rep.path_conditions.clear();
